@@ -24,6 +24,9 @@ META = dict(
         "multi-byte, forced and EOS tokens"
     ),
 )
+META["explanation"] += (
+    " Added after the independent seeding rounds 2-3: " "R4 the bytes dropped by TokenParser::rollback charge token_len exactly for tokens outside eos_tokens (loop or iterator form) and the same count goes to Parser::rollback and the llm_bytes truncation. R5 token_len agrees with decode_raw's special-token encoding (relational digit-loop bound). R6 the commit path removes from lexer_stack only the flush entry and never overwrites a surviving entry in the token-range arm."
+)
 
 NON_RESTORED = {
     "backtrack_byte_count": "working register, reset by mem::take in try_push_byte_definitive; asserted 0 by assert_definitive",
